@@ -107,9 +107,10 @@ class OSMRoadNetwork(RoadNetwork):
 
         for _, node_data in graph.nodes(data=True):
             # Replace lat/lon with geoid
+            # h3 takes (lat, lng); graph nodes carry x = longitude, y = latitude
             node_data["geoid"] = h3.geo_to_h3(
-                node_data.get("x", node_data.get("lat")),
-                node_data.get("y", node_data.get("lon")),
+                node_data.get("y", node_data.get("lat")),
+                node_data.get("x", node_data.get("lon")),
                 sim_h3_resolution,
             )
             for key in ["x", "y", "lat", "lon"]:
@@ -121,6 +122,8 @@ class OSMRoadNetwork(RoadNetwork):
             raise Exception("Was not able to build link helper")
         else:
             self.min_speed_kmph: Kmph = min(link.speed_kmph for link in link_helper.links.values())
+            # the A* heuristic must never over-estimate: remaining time is bounded below at the fastest link speed
+            self.max_speed_kmph: Kmph = max(link.speed_kmph for link in link_helper.links.values())
             # finish constructing OSMRoadNetwork instance
             self.graph = graph
             self.link_helper = link_helper
@@ -187,7 +190,7 @@ class OSMRoadNetwork(RoadNetwork):
             dist: Kilometers = H3Ops.great_circle_distance(
                 self.graph.nodes[source]["geoid"], self.graph.nodes[dest]["geoid"]
             )
-            time: Hours = dist / self.min_speed_kmph
+            time: Hours = dist / self.max_speed_kmph
             return time * SECONDS_IN_HOUR
 
         # start path search from the end of the origin link, terminate search at the start of the
